@@ -57,7 +57,8 @@ Definition step_node (hist : list N) (s : mstate) (q : bool) (g : game) (p : nat
       end
     end in
   let ok := wf g && keyok_b g && Nat.leb p (N.to_nat MAX_PLY) && rel in
-  let rep_due := negb q && negb (Nat.eqb p 0) && legal && existsb (N.eqb (hash g)) hist in
+  (* C07 speaks about positions: the key recomputed from the node's position is compared (the stored key is judged separately: keyok_b) *)
+  let rep_due := negb q && negb (Nat.eqb p 0) && legal && existsb (N.eqb (make_zobrist_hash g)) hist in
   mkM (mkFrame p g q legal :: st) (if rep_due then i else 0) (N.succ i)
       (if ok then bad06 s else first_bad (bad06 s) i) (bad06v s) bad07m' (bad07f s).
 
@@ -68,7 +69,7 @@ Definition step (hist : list N) (s : mstate) (e : cev) : mstate :=
     if negb (pending s =? 0) then mkM (stack s) 0 (N.succ (idx s)) (bad06 s) (bad06v s) (bad07m s) (bad07f s)
     else
       let ok := match stack s with
-                | f :: r => existsb (N.eqb (hash (f_g f))) (hist ++ map (fun x => hash (f_g x)) r)
+                | f :: r => existsb (N.eqb (make_zobrist_hash (f_g f))) (hist ++ map (fun x => make_zobrist_hash (f_g x)) r)
                 | [] => false
                 end in
       mkM (stack s) 0 (N.succ (idx s)) (bad06 s) (bad06v s) (bad07m s) (if ok then bad07f s else first_bad (bad07f s) (idx s))
